@@ -73,6 +73,16 @@ SELECTORS = [
     ("any(x > 1 for x in r.il if x != 3)", "any-gen-if", "both"),
     ("any(x == 1 for x in r.il) and any(x == 2 for x in r.il)", "any-gen-same-var-twice", "both"),
     ("any(c == 'x' for c in r.s)", "any-gen-over-text", "both"),
+    # fields(<type>): the field list of the descriptor of the record BEING matched (descriptors of one input differ)
+    ("field_contains(r, (f.name for f in fields('string')), ['a', 'z'])", "fields-helper-arg-gen", "both"),
+    ("field_equals(r, (f.name for f in fields('string')), ['x', 'z'])", "fields-helper-arg-gen-equals", "both"),
+    ("any(f.name == 'other' for f in fields('string'))", "fields-any-gen", "both"),
+    ("any(f.name == 'm' for f in fields('varint'))", "fields-any-gen-varint", "both"),
+    ("all(f.name != 's' for f in fields(string))", "fields-dynamic-typename", "both"),
+    ("field_regex(r, (f.name for f in fields('string')), '^[aA]$') or any(g.name == 'n' for g in fields('varint'))", "fields-two-uses", "both"),
+    ("name(r) == 'c10/c' or 'c10/b' in names(r)", "name-names", "both"),
+    ("Type.string == 'z' or Type.string == 'a'", "type-string-across-descriptors", "both"),
+    ("Type.varint == 3 and not Type.string == 'a'", "type-varint-string", "both"),
     # fields some records lack
     ("r.m == 3", "missing-eq", "both"), ("r.other == 'z'", "missing-other", "both"), ("r.zz == 1", "missing-everywhere", "both"),
     ("r.m > 1 or r.n > 1", "missing-or", "both"), ("r.zz != 1", "missing-ne", "both"),
